@@ -33,6 +33,9 @@ class TaintDomain(Domain):
         """Labels an index contributes to the value it selects."""
         return ann
 
+    def shape_ann(self, ann):
+        return E  # a shape carries no value dependence
+
     # -- Domain interface ---------------------------------------------------------------------
     def arg(self, func, pname, idx, default):
         return T(frozenset(self.src_arg(func, pname)))
@@ -67,8 +70,15 @@ class TaintDomain(Domain):
         for a in list(args) + list(kwargs.values()):
             if isinstance(a, AV):
                 ann = ann | all_ann(self, a)
-        out = frozenset(self.xfer(interp, op, info, ann, recv, args, kwargs, node))
         cat = info.get("cat")
+        if cat == "like" and not getattr(self, "like_keeps_labels", False):
+            ann = E
+            for a in list(args) + list(kwargs.values()):
+                if isinstance(a, AV) and a.kind in ("tensor", "top"):
+                    ann = ann | all_ann(self, a)
+        if cat == "scalar" and op not in ("item", "tolist", "numpy"):
+            ann = self.shape_ann(ann)
+        out = frozenset(self.xfer(interp, op, info, ann, recv, args, kwargs, node))
         if cat == "scalar":
             if op == "size" and not args and "dim" not in kwargs:
                 return AV("shape", None, out)
